@@ -302,6 +302,34 @@ def c17(ctx):
                       "non-trivial = the checker reports no error (the implication's antecedent holds)")
 
 
+@check("C14")
+def c14(ctx):
+    ctx.assumptions += ["TLC evaluates Edit.tla (documents, line table) and Grammar.tla (token-level recognizer of Numscript.g4; validity is only asserted for documents made of whole tokens)",
+                        "raw byte garbage and partial lexemes get the oracle-free predicates only (no panic, termination, located errors)"]
+    ctx.tlc_mc("GrammarMC", "GrammarMC.cfg", workers=8, env={"TREES": accept_trees(ctx)}, timeout=900,
+               label="Grammar!Accepts holds for every script the printer prints and fails when a bracket is removed (design level)")
+    front.edit_check(ctx, "C14", "parser")
+    front.c15(ctx, cfg="FrontTrace_C14.cfg", prop="C14")   # valid scripts under every layout: no panic, zero errors
+    return ctx.finish("exploration", "documents of Edit.tla: every prefix at every character, every single token deletion / duplication / swap / replacement / insertion from an "
+                      "alphabet of tokens and garbage (thorough: richer alphabet and all pairs of whole-token edits on small seeds), printed with two line layouts; "
+                      "non-trivial = a document outside the language; plus the texts of the Syntax machine")
+
+
+def accept_trees(ctx):
+    ctx.build()
+    tp = os.path.join(ctx.work, "accept_trees.ndjson")
+    ctx.vh_json(["syn-trees", ctx.seed, 100 if ctx.tier == "quick" else 1500, 3, tp])
+    return tp
+
+
+@check("C18")
+def c18(ctx):
+    ctx.assumptions += ["TLC evaluates Edit.tla (documents and their line table)", "hover / definition are probed at every column of every line including one past the end"]
+    front.edit_check(ctx, "C18", "analysis")
+    return ctx.finish("exploration", "documents of Edit.tla (see C14) x every cursor position: CheckSource twice, GetSymbols twice, HoverOn and GotoDefinition everywhere; "
+                      "non-trivial = a document outside the language")
+
+
 def replay(path):
     rp = json.load(open(path))
     prop = rp.get("property", "C00")
@@ -335,6 +363,14 @@ def replay(path):
             return CHECKS["C11"](c)
         if rp["kind"] in ("front", "diag", "nav", "c17"):
             hits = front.confirm_front(ctx, rp)
+            print(json.dumps(rp.get("observed_again"), indent=1)[:3000])
+            if hits:
+                print("VIOLATION property=%s replay=%s" % (prop, path))
+                return 1
+            print("not reproduced")
+            return 0
+        if rp["kind"] == "edit":
+            hits = front.confirm_edit(ctx, rp)
             print(json.dumps(rp.get("observed_again"), indent=1)[:3000])
             if hits:
                 print("VIOLATION property=%s replay=%s" % (prop, path))
